@@ -47,6 +47,9 @@ type State struct {
 	Gas   [nPrinc]int64        `json:"gas"`
 	Neo   [nPrinc]int64        `json:"neo"`
 	Fee   int64                `json:"fee"`
+	// Blocked: account 5 is on the Policy block list; Deployed: the fourth instance exists.
+	Blocked  bool `json:"blocked"`
+	Deployed bool `json:"deployed"`
 	// Bonus is the GAS minted to a principal when its NEO balance is touched
 	// for the first time in this block (taken from NEO.unclaimedGas).
 	Bonus [nPrinc]int64 `json:"bonus"`
@@ -99,7 +102,7 @@ type machine struct {
 }
 
 func stateSig(s *State) string {
-	return fmt.Sprint(s.storLines(), s.Notes, s.Gas, s.Neo, s.Fee)
+	return fmt.Sprint(s.storLines(), s.Notes, s.Gas, s.Neo, s.Fee, s.Blocked, s.Deployed)
 }
 
 func (m *machine) exec(f *frame, ops []Op) outcome {
@@ -112,6 +115,12 @@ func (m *machine) exec(f *frame, ops []Op) outcome {
 			}
 			m.st.Stor[f.inst][fmt.Sprintf("k%d", o.ID)] = fmt.Sprint(o.ID)
 			f.log = append(f.log, "1")
+			if f.flags&fNotify == 0 {
+				return oFault
+			}
+			m.st.Notes = append(m.st.Notes, fmt.Sprintf("%c:ev:[%d]", instNames[f.inst], o.ID))
+			f.log = append(f.log, "5")
+		case 'N':
 			if f.flags&fNotify == 0 {
 				return oFault
 			}
@@ -160,6 +169,22 @@ func (m *machine) exec(f *frame, ops []Op) outcome {
 			m.calls++
 			m.st.Fee = int64(1000 + o.ID)
 			f.log = append(f.log, "null")
+		case 'K', 'U':
+			if f.flags&(fRead|fCall) != fRead|fCall || f.flags&(fRead|fWrite) != fRead|fWrite || !m.committee {
+				return oFault
+			}
+			m.calls++
+			want := o.K == 'K'
+			f.log = append(f.log, fmt.Sprint(m.st.Blocked != want))
+			m.st.Blocked = want
+		case 'Y':
+			if f.flags != fAll || m.st.Deployed {
+				return oFault
+			}
+			m.calls++
+			m.st.Deployed = true
+			m.st.Notes = append(m.st.Notes, "MGMT:Deploy:[D]")
+			f.log = append(f.log, "<UD>")
 		case 'r':
 			if f.flags&(fRead|fCall) != fRead|fCall {
 				return oFault
@@ -277,9 +302,17 @@ func runModel(init *State, prog []Op, committee bool) *Result {
 	m.st.Notes = nil
 	f := &frame{inst: pA, flags: fAll}
 	out := m.exec(f, prog)
-	if out == oOK && hasOp(prog, 'F') {
-		// observer appended by the harness: Policy.getFeePerByte()
-		f.log = append(f.log, fmt.Sprint(m.st.Fee))
+	if out == oOK {
+		// observers appended by the harness (they read through the native caches)
+		if hasOp(prog, 'F') {
+			f.log = append(f.log, fmt.Sprint(m.st.Fee)) // Policy.getFeePerByte()
+		}
+		if hasAny(prog, "KU") {
+			f.log = append(f.log, fmt.Sprint(m.st.Blocked)) // Policy.isBlocked(account 5)
+		}
+		if hasOp(prog, 'Y') {
+			f.log = append(f.log, fmt.Sprint(m.st.Deployed)) // ContractManagement.isContract(UD)
+		}
 	}
 	res := &Result{Calls: m.calls, Restores: m.restores, Undone: m.undone}
 	if out != oOK {
